@@ -300,4 +300,25 @@ PROPS = {
         "level_text": "Two executions per tree differing only in text content are compared on the structure that the property fixes (the set of control lines).",
         "level_note": "Trusted: the control-line scanner (~30 lines).",
     },
+    "C18": {
+        "quick_ms": 20000,
+        "thorough_ms": 300000,
+        "floors": {"totality.candidates": 20000, "totality.no-completion": 5000, "soundness.queries": 100000, "soundness.arg-candidates": 100000,
+                   "soundness.command-candidates": 10000, "completeness.args-expected": 50000, "completeness.subcommands-expected": 10000,
+                   "stratum.canonical-spellings": 5000},
+        "rule": "totality: wild gate-accepted trees (path value hints removed so the file system never enters) x hostile argv x every cursor index "
+                "0..=len+1: complete() returns candidates or the plain 'no completion generated' error, all candidate accessors work, < 5 s CPU. "
+                "soundness/completeness: conventional trees with globals, hidden args/subcommands x prefixes rendered from valid intents that end "
+                "where a new argument may start (no pending value, no `--`) x cursor words {\"\", -, --, --<prefix of each long>, <prefix of each "
+                "subcommand>, --zz, zz}: every arg::/command:: candidate extends the word, names an argument (own or inherited global) / "
+                "subcommand of the level the intent reached and `prefix + candidate (+ required values)` is not rejected by the real parser as "
+                "UnknownArgument/InvalidSubcommand; every visible long (or visible alias) / subcommand name (or visible alias) extending the word "
+                "is represented by its candidate id; no hidden candidate next to a visible one. Prefixes spelled through flag subcommands or "
+                "inferred prefixes are judged too but keyed apart (known findings F22/F23).",
+        "assumptions": COMMON_ASSUME + ["current_dir = None and no path-hinted values: the file system is outside the claim",
+                                        "the level reached and 'a new argument may start' are known by construction from the rendered intent, not re-derived"],
+        "technique": "runtime totality monitor + differential oracle against the real parser and the definition (soundness/completeness of candidates)",
+        "level_text": "Each completion query is an execution judged against the command definition and, candidate by candidate, against the real parser.",
+        "level_note": "Shell adapters (env/shells.rs) are not executed (they need the process environment and stdout of a completer binary).",
+    },
 }
